@@ -217,13 +217,75 @@ func splitArityCovered(p *Prog, f *ssa.Function, ia *ssa.IndexAddr, key string, 
 			}
 		}
 		walk(ifi.Cond)
-		if lenOf == nil || need < k+1 {
-			return
-		}
-		// true edge returns an error
-		tb := ifi.Block().Succs[0]
-		if !leadsToErrorReturn(tb) {
-			return
+		viaHelper := false
+		if lenOf == nil {
+			// the shape test may live in a small boolean helper: the branch that
+			// does not return an error must imply len(parts) >= k+1
+			cond, neg := ifi.Cond, false
+			for {
+				if u, ok := cond.(*ssa.UnOp); ok && u.Op == token.NOT {
+					cond, neg = u.X, !neg
+					continue
+				}
+				break
+			}
+			if hc, ok := cond.(*ssa.Call); ok {
+				if g := hc.Common().StaticCallee(); g != nil && smallHelper(g) {
+					errOnTrue := leadsToErrorReturn(ifi.Block().Succs[0])
+					errOnFalse := leadsToErrorReturn(ifi.Block().Succs[1])
+					if errOnTrue != errOnFalse {
+						// value of the call on the edge that goes on
+						safe := errOnFalse
+						if neg {
+							safe = !safe
+						}
+						for _, ef := range impliedByResult(g, safe) {
+							bo, ok := ef.Cond.(*ssa.BinOp)
+							if !ok {
+								continue
+							}
+							lc, ok := bo.X.(*ssa.Call)
+							if !ok || builtinName(lc.Common()) != "len" {
+								continue
+							}
+							prm, ok := lc.Call.Args[0].(*ssa.Parameter)
+							if !ok {
+								continue
+							}
+							n, ok := constInt(bo.Y)
+							if !ok {
+								continue
+							}
+							op := bo.Op
+							if !ef.Truth {
+								op = negateCmp(op)
+							}
+							if !((op == token.GEQ && n >= k+1) || (op == token.GTR && n >= k)) {
+								continue
+							}
+							for i, q := range g.Params {
+								if q == prm && i < len(hc.Common().Args) {
+									if k2, ok := splitOfTag(hc.Common().Args[i]); ok && k2 == key {
+										viaHelper = true
+									}
+								}
+							}
+						}
+					}
+				}
+			}
+			if !viaHelper {
+				return
+			}
+		} else {
+			if need < k+1 {
+				return
+			}
+			// true edge returns an error
+			tb := ifi.Block().Succs[0]
+			if !leadsToErrorReturn(tb) {
+				return
+			}
 		}
 		// selected by parts[0] == "rel" on the same split
 		for _, ef := range expandFacts(factsAt(ifi.Block())) {
@@ -442,7 +504,7 @@ func checkNames(p *Prog, r *Report, chk *ssa.Function) {
 		}
 		good := false
 		eachInstr(f, func(ins ssa.Instruction) {
-			if bo, ok := ins.(*ssa.BinOp); ok && bo.Op == token.EQL {
+			if bo, ok := ins.(*ssa.BinOp); ok && (bo.Op == token.EQL || bo.Op == token.NEQ) {
 				for _, pr := range [][2]ssa.Value{{bo.X, bo.Y}, {bo.Y, bo.X}} {
 					if key, ok := tagGetOf(pr[1]); ok && key == "json" && pr[0] == ssa.Value(f.Params[1]) {
 						good = true
@@ -530,7 +592,7 @@ type buildPath struct {
 }
 
 func exploreBuild(p *Prog, f *ssa.Function) []buildPath {
-	in := &interp{p: p, f: f, maxPaths: 60000, maxVisit: 3, structuralNames: true}
+	in := &interp{p: p, f: f, maxPaths: 60000, maxVisit: 3, structuralNames: true, inline: smallHelper}
 	in.callHook = func(st *istate, c *ssa.Call, args []*aval) *aval {
 		cc := c.Common()
 		if cc.IsInvoke() {
@@ -831,4 +893,46 @@ func checkC20IDAndPurity(p *Prog, r *Report) {
 	if nG == 0 {
 		r.ok("C20.check-pure", "Check:no-package-state", p.pos(chk.Pos()), "Check and its callees in the package read no package-level variable")
 	}
+}
+
+// impliedByResult: the branch outcomes that hold whenever the boolean function
+// g returns the given value (intersection over the returns that can yield it).
+func impliedByResult(g *ssa.Function, value bool) []edgeFact {
+	type key struct {
+		c ssa.Value
+		t bool
+	}
+	var common map[key]edgeFact
+	for _, b := range g.Blocks {
+		ret, ok := b.Instrs[len(b.Instrs)-1].(*ssa.Return)
+		if !ok || len(ret.Results) != 1 {
+			continue
+		}
+		facts := factsAt(b)
+		if cb, isC := constBool(ret.Results[0]); isC {
+			if cb != value {
+				continue
+			}
+		} else {
+			facts = append(facts, edgeFact{Cond: ret.Results[0], Truth: value})
+		}
+		cur := map[key]edgeFact{}
+		for _, ef := range expandFacts(facts) {
+			cur[key{ef.Cond, ef.Truth}] = ef
+		}
+		if common == nil {
+			common = cur
+			continue
+		}
+		for k := range common {
+			if _, ok := cur[k]; !ok {
+				delete(common, k)
+			}
+		}
+	}
+	var out []edgeFact
+	for _, ef := range common {
+		out = append(out, ef)
+	}
+	return out
 }
